@@ -96,9 +96,16 @@ def chosen_paths(ctx, m, t, fn, paths, rep=None, rule=None):
     obj = A.params(fn.node)[0]
     out = []
     try:
-        for val in m.samples(t):
-            out.append((val, B.select_path(ctx, paths, val, obj)))
-        return out
+        vals = list(m.samples(t))
+        for val in vals:
+            B.select_path(ctx, paths, val, obj)          # dry run: can every guard be evaluated?
+
+        def lazily():
+            # select_path materialises the chosen path FOR the valuation (the same path object serves several valuations):
+            # it must be re-selected right before it is judged
+            for val in vals:
+                yield val, B.select_path(ctx, paths, val, obj)
+        return lazily()
     except AnalysisError as e_:
         out = []
         for p_ in paths:
